@@ -394,8 +394,10 @@ class World:
                     await self.block(name)
             elif k == "prepare":
                 # the block object is made here and now - and entered later, maybe by another task
-                _, kind, sid, states = op
-                self.prepared = (kind, sid, ctx.updated(*mk(states)) if kind == "update" else ctx.scope(f"s{sid}", *mk(states)))
+                _, kind, sid, states, *rest = op
+                label = rest[0] if rest else f"s{sid}"
+                kw = rest[1] if len(rest) > 1 else {}
+                self.prepared = (kind, sid, ctx.updated(*mk(states)) if kind == "update" else ctx.scope(label, *mk(states), **kw))
             elif k == "enterprep":
                 kind, sid, obj = self.prepared
                 before = self.probe()
